@@ -204,6 +204,28 @@ def run(ctx):
             for fn, flds_ in forced_false(gfn):
                 for f in flds_:
                     guards.setdefault((gfn.split("::")[-1], f), []).append(exec_calls[0])
+        # plugins configured (the pool's own or the general ones it inherits) => statements are parsed and the plugins run, whatever else the pool
+        # says: the general [plugins] section is inherited by pools whose query parser is off, and Pool::validate only looks at a pool's own section (D46)
+        for gfn in sorted(gate_fns):
+            gb = F.body(gfn)
+            if gb is None:
+                continue
+            trues_ = [blk for blk, i, st in gb.assigns() if st["lhs"]["l"] == 0 and not st["lhs"]["p"] and st["rv"]["k"] == "use" and const_int(st["rv"]["op"]) == 1]
+            plug_sw, other_sw = set(), {}
+            for sw in switches(gb):
+                flds = set()
+                for o in origins(gb, gb.blocks[sw.block]["term"]["op"], taint=True):
+                    if o.kind in ("place", "param"):
+                        flds |= {p_[1:] for p_ in o.proj if p_.startswith(".") and not p_[1:].isdigit()}
+                flds -= {"pool_settings"}
+                if flds == {"plugins"}:
+                    plug_sw.add(sw.block)
+                elif flds:
+                    other_sw[sw.block] = sorted(flds)
+            par_ = gb.reach([0], avoid_blocks=list(other_sw), want_parents=True)
+            ok_ = any(t_ in par_ and set(gb.path(par_, t_)) & plug_sw for t_ in trues_)
+            r3.check(ok_, "plugins-configured=>dispatch:" + gfn.split("::")[-1], "%s() answers true as soon as the pool has plugins, without asking anything else" % gfn.split("::")[-1],
+                     "%s() answers true for a pool with plugins only if %s also holds: a pool that inherits the general [plugins] section with its query parser off passes Config::validate and never runs table_access / intercept - every statement is forwarded" % (gfn.split("::")[-1], sorted(set(sum(other_sw.values(), [])))))
         r3.check(bool(gate_fns), "gate-functions", "plugin dispatch is guarded by %s" % sorted(x.split("::")[-1] for x in gate_fns), "cannot resolve the guard of the plugin dispatch")
         if not guards:
             r3.ok("dispatch-not-client-switchable", "no client SET command can force the dispatch guard to false while plugins are configured")
